@@ -296,10 +296,11 @@ type Ticket struct {
 	Realm string
 	SName PrincipalName
 	Enc   EncryptedData
+	Extra []byte // raw elements appended inside the ticket's SEQUENCE after enc-part (a forger's addition; nil for honest tickets)
 }
 
 func (t Ticket) EncBytes() []byte {
-	return der.App(1, der.Seq(der.Ctx(0, der.Int(5)), der.Ctx(1, der.GeneralString(t.Realm)), der.Ctx(2, t.SName.Enc()), der.Ctx(3, t.Enc.Enc())))
+	return der.App(1, der.Seq(der.Ctx(0, der.Int(5)), der.Ctx(1, der.GeneralString(t.Realm)), der.Ctx(2, t.SName.Enc()), der.Ctx(3, t.Enc.Enc()), t.Extra))
 }
 
 func DecTicket(n *der.Node) (Ticket, error) {
